@@ -73,8 +73,20 @@ OkRgbToLms == << FxDec(1, 0, <<4122, 2147, 800>>), FxDec(1, 0, <<5363, 3253, 630
            FxDec(1, 0, <<2119, 349, 8200>>), FxDec(1, 0, <<6806, 9954, 5100>>), FxDec(1, 0, <<1073, 9695, 6600>>),
            FxDec(1, 0, <<883, 246, 1900>>), FxDec(1, 0, <<2817, 1883, 7600>>), FxDec(1, 0, <<6299, 7870, 500>>) >>
 
+(* Cone response matrices XYZ -> LMS (row major):
+   Bradford: Lam 1985 / CIECAM97s, ICC.1 annex E, Lindbloom "Chromatic adaptation";
+   von Kries: the Hunt-Pointer-Estevez matrix normalised to D65 (Lindbloom; Fairchild, Color Appearance Models).
+   LMS -> XYZ is the inverse; the sources print it to seven decimals. *)
+ConeBradford == << FxRat(8951, 10000),  FxRat(2664, 10000),  FxRat(-1614, 10000),
+                   FxRat(-7502, 10000), FxRat(17135, 10000), FxRat(367, 10000),
+                   FxRat(389, 10000),   FxRat(-685, 10000),  FxRat(10296, 10000) >>
+ConeVonKries == << FxRat(40024, 100000),  FxRat(70760, 100000),  FxRat(-8081, 100000),
+                   FxRat(-22630, 100000), FxRat(116532, 100000), FxRat(4570, 100000),
+                   FxZero,                FxZero,                FxRat(91822, 100000) >>
+
 (* constants that are expensive to derive are computed once per trace run and carried in a variable *)
-Consts == [ rgb2xyz |-> SrgbToXyz, xyz2rgb |-> Inv3(SrgbToXyz), okm2inv |-> Inv3(OkM2) ]
+Consts == [ rgb2xyz |-> SrgbToXyz, xyz2rgb |-> Inv3(SrgbToXyz), okm2inv |-> Inv3(OkM2),
+            vk |-> ConeVonKries, vkinv |-> Inv3(ConeVonKries), bfd |-> ConeBradford, bfdinv |-> Inv3(ConeBradford) ]
 
 -----------------------------------------------------------------------------
 (* linear map: out = M in *)
